@@ -7,10 +7,13 @@ git -C /repo worktree add -f $W HEAD -q || exit 1
 cd $W; mkdir -p seeded; cp -r $SD seeded/$N
 CMD=$(python3 - <<PY
 import json,re
-c=json.load(open('seeded/$N/meta.json'))['demo_cmd'].replace('cd <worktree> && ','')
+c=json.load(open('seeded/$N/meta.json'))['demo_cmd'].strip()
+c=re.sub(r'^\(\s*','',c); c=re.sub(r'\s*\)$','',c)
+c=c.replace('cd <worktree> && ','')
+c=re.sub(r'cd /tmp/seed2?-C\d+\s*(&&|;)\s*','',c)
 c=re.sub(r'git apply [^&;]*(&&|;)','',c)
-c=re.sub(r'(&&|;)\s*git checkout[^&;]*','',c)
-c=re.sub(r';\s*rm [^;&]*$','',c)
+i=c.find('go1.26 test'); j=c.find(';',i)
+if i>=0 and j>=0: c=c[:j]
 print(c)
 PY
 )
@@ -21,5 +24,5 @@ echo "[$SD] WITH patch:    $(run)"
 # suite with the patch, demo test removed
 git status --short | grep '^??' | grep _test.go | awk '{print $2}' | xargs -r rm
 go1.26 build ./... || echo "BUILD FAILED"
-echo "[$SD] SUITE failing tests: $(go1.26 test -vet=off -count=1 ./... 2>&1 | grep -a -E '^--- FAIL' | sort | tr '\n' ' ')"
+[ -n "$NOSUITE" ] || echo "[$SD] SUITE failing tests: $(go1.26 test -vet=off -count=1 ./... 2>&1 | grep -a -E '^--- FAIL' | sort | tr '\n' ' ')"
 cd /; git -C /repo worktree remove --force $W
